@@ -1,6 +1,7 @@
 package sim
 
 import (
+	"bytes"
 	"fmt"
 
 	"github.com/syndtr/goleveldb/leveldb/storage"
@@ -40,6 +41,7 @@ type gen struct {
 	bs         int
 	cmp        func(a, b []byte) int
 	bigJournal bool
+	bigKeys    int // > 0: every key gets a tail of about this many bytes
 }
 
 func (g *gen) val(maxLen int) V {
@@ -98,6 +100,9 @@ func (g *gen) makeKeys(n int) {
 			continue
 		}
 		seen[string(b)] = true
+		if g.bigKeys > 0 {
+			b = append(b, bytes.Repeat([]byte{alpha[0]}, g.bigKeys/2+g.r.intn(g.bigKeys))...)
+		}
 		g.keys = append(g.keys, b)
 	}
 }
@@ -152,7 +157,7 @@ func (g *gen) knobs(cmp string) Knobs {
 	k.RestartInterval = r.pick(1, 2, 3, 8, 16, 32)
 	k.NoCompression = r.p(0.4)
 	if r.p(0.5) {
-		k.FilterBits = r.pick(1, 4, 10, 16, 64)
+		k.FilterBits = r.pick(1, 4, 10, 16, 64, -1)
 		k.FilterBaseLg = r.pick(0, 4, 6, 11, 14)
 	}
 	switch r.intn(4) {
@@ -630,11 +635,11 @@ func GenCase(prop string, seed uint64, thorough bool) *Case {
 		p.wWrite, p.wGet, p.wIter, p.wSnap, p.wSnapRead, p.wTx, p.wCompact, p.wReopen = 45, 3, 30, 4, 8, 4, 3, 2
 		p.maxMoves = 120
 	case "C03":
-		p.wWrite, p.wGet, p.wIter, p.wSnap, p.wSnapRead, p.wCompact, p.wReopen, p.wSleep, p.wKeepIter = 45, 3, 2, 10, 25, 5, 1, 3, 12
+		p.wWrite, p.wGet, p.wIter, p.wSnap, p.wSnapRead, p.wCompact, p.wReopen, p.wSleep, p.wKeepIter, p.wTx = 45, 3, 2, 10, 25, 5, 1, 3, 12, 4
 	case "C06":
 		p.wWrite, p.wGet, p.wIter, p.wTx, p.wCompact, p.wReopen, p.wSnap = 70, 5, 3, 4, 6, 3, 2
 	case "C07":
-		p.wWrite, p.wGet, p.wIter, p.wSnap, p.wTx, p.wCompact, p.wReopen, p.wSleep, p.wSettle, p.wKeepIter = 55, 3, 2, 2, 4, 6, 3, 4, 6, 15
+		p.wWrite, p.wGet, p.wIter, p.wSnap, p.wTx, p.wCompact, p.wReopen, p.wSleep, p.wSettle, p.wKeepIter, p.wStats = 55, 3, 2, 2, 4, 6, 3, 4, 6, 15, 3
 		c.Knobs.MaxManifest = 0
 	case "C16":
 		p.wWrite, p.wGet, p.wIter, p.wCompact, p.wReopen, p.wSnap, p.wSnapRead = 50, 30, 8, 4, 8, 4, 12
@@ -658,6 +663,12 @@ func GenCase(prop string, seed uint64, thorough bool) *Case {
 		}
 		p.syncP = []float64{0.05, 0.3, 0.7}[r.intn(3)]
 		p.ops = [2]int{15, 100 * scale}
+		if !g.bigJournal && r.p(0.06) {
+			// keys of several KiB: manifest records (table bounds) and journal
+			// records cross 32 KiB block boundaries after a few edits
+			g.bigKeys = r.pick(2000, 5000, 9000)
+			p.ops = [2]int{6, 40}
+		}
 		c.Scenario = "crash"
 	case "C08", "C09":
 		p.wWrite, p.wGet, p.wIter, p.wTx, p.wCompact, p.wReopen = 60, 12, 3, 6, 5, 4
@@ -690,6 +701,19 @@ func GenCase(prop string, seed uint64, thorough bool) *Case {
 					k.AltFilterBits = [][]int{{10}, {-1}, {10, -1}, {-1, 10}}[r.intn(4)]
 				}
 				ops[i].Knob = &k
+			}
+		}
+	}
+	if prop != "C16" {
+		// a reopen under another filter policy lists the previous one in
+		// AltFilters (60%), as an application that changes its policy would
+		cur := c.Knobs.FilterBits
+		for i := range ops {
+			if k := ops[i].Knob; k != nil && (ops[i].K == "reopen" || ops[i].K == "setro") {
+				if cur != 0 && k.FilterBits != cur && r.p(0.6) {
+					k.AltFilterBits = []int{cur}
+				}
+				cur = k.FilterBits
 			}
 		}
 	}
@@ -773,15 +797,35 @@ func GenCase(prop string, seed uint64, thorough bool) *Case {
 		// every manifest commit that is attempted succeeds and the monitor's
 		// view of the live set stays exact
 		for i := r.rng(1, 3); i > 0; i-- {
-			f := &simdisk.Fault{Kind: "err", Op: []string{simdisk.OpWrite, simdisk.OpSync, simdisk.OpCreate, simdisk.OpClose}[r.intn(4)], FT: int(storage.TypeTable), Nth: r.rng(1, 40), Count: r.rng(1, 3), Epoch: -1}
+			f := &simdisk.Fault{Kind: "err", Op: []string{simdisk.OpWrite, simdisk.OpSync, simdisk.OpCreate, simdisk.OpClose, simdisk.OpOpen, simdisk.OpRead}[r.intn(6)], FT: int(storage.TypeTable), Nth: r.rng(1, 40), Count: r.rng(1, 3), Epoch: -1}
 			c.Faults = append(c.Faults, f)
 		}
+		if r.p(0.4) {
+			// failed version commits as well: once the faults have stopped
+			// and a commit has succeeded, the manifest and the DB agree again
+			// and the settle check applies
+			for i := r.rng(1, 2); i > 0; i-- {
+				c.Faults = append(c.Faults, &simdisk.Fault{Kind: "err", Op: []string{simdisk.OpWrite, simdisk.OpSync}[r.intn(2)], FT: int(storage.TypeManifest), Nth: r.rng(2, 30), Count: r.rng(1, 2), Epoch: -1})
+			}
+		}
 		c.TableFaultsOnly = true
-		c.Clients[0] = append(c.Clients[0], Op{K: "heal"}, Op{K: "settle"})
+		ops := append(c.Clients[0], Op{K: "heal"})
+		for i := r.rng(4, 20); i > 0; i-- {
+			ops = append(ops, g.writeOp(0.1))
+		}
+		c.Clients[0] = append(ops, Op{K: "compact"}, Op{K: "settle"})
 	}
 	switch c.Scenario {
 	case "crash":
 		g.crashPlan(c)
+		if g.bigKeys > 0 {
+			// tear the (multi-chunk) manifest records
+			for _, f := range c.Faults {
+				if f.Kind == "crash" && r.p(0.7) {
+					f.Op, f.FT, f.Nth, f.After = simdisk.OpWrite, int(storage.TypeManifest), r.rng(2, 14), r.p(0.8)
+				}
+			}
+		}
 	case "fault":
 		if prop == "C08" && r.p(0.15) || prop == "C09" && len(c.Clients) == 1 && r.p(0.1) {
 			// bit rot at rest instead of operation failures
